@@ -64,6 +64,9 @@ type Obligation struct {
 	Solver  string
 	Secs    float64
 	Model   string
+	Cex     map[string]string // candidate counterexample: parameter name -> value (ground model)
+	CexRets []string          // the results the encoding predicts for it (one per result; "" if not scalar)
+	Sig     *ScalarSig        // set when the function can be called with a model's values (cex replay)
 	SmtFile string
 	idx     int
 	seg     int
@@ -80,8 +83,8 @@ type Item struct {
 
 // Fx is the verification context of one top-level function.
 type Fx struct {
-	curSeg     int  // current segment (see Item)
-	permNext   bool // the next assertions are kept summaries
+	curSeg     int    // current segment (see Item)
+	permNext   bool   // the next assertions are kept summaries
 	rootAlloc  string // allocation counter at the entry of the verified function
 	E          *Engine
 	top        *ssa.Function
@@ -655,4 +658,26 @@ func (E *Engine) pos(p token.Pos) string {
 		f = f[i+6:]
 	}
 	return fmt.Sprintf("%s:%d", f, ps.Line)
+}
+
+// ScalarSig describes a receiver-less function whose parameters are all integers, booleans, strings or byte
+// slices: a model of a failed obligation can be turned into a call of the real function.
+type ScalarSig struct {
+	Dir    string // package directory relative to the repository
+	Pkg    string // package name
+	Func   string
+	Params []ScalarParam
+	Rets   []ScalarRet
+}
+
+type ScalarParam struct {
+	Name, GoType, Term string
+	Bool               bool
+	Kind               string // int, bool, string, bytes
+	Arr                string // bytes: the term that is 0 for a nil slice
+}
+
+type ScalarRet struct {
+	Kind string // int, bool, error, other
+	Term string // value term (int, bool) or nil-ness term (error)
 }
